@@ -103,6 +103,10 @@ def case_rng(pid, seed, index):
 
 # ------------------------------------------------------------------------- reach counters
 
+# entry points of the public API: the "was the engine reached at all" guard must not rest on private helper names alone
+PUBLIC_ANCHORS = ["tartiflette.engine:Engine.cook", "tartiflette.engine:Engine.execute", "tartiflette.engine:Engine.subscribe"]
+
+
 class Reach:
     """sys.monitoring PY_START counters on the anchor functions (function granularity)."""
 
@@ -191,7 +195,7 @@ def worker(pid, tier, seed, shard, nshards, n, out):
     prop = load_prop(pid)
     stats = Stats()
     ctx = Ctx(prop, tier, seed, stats)
-    reach = Reach(getattr(prop, "ANCHORS", []))
+    reach = Reach(list(getattr(prop, "ANCHORS", [])) + [a for a in PUBLIC_ANCHORS if a not in getattr(prop, "ANCHORS", [])])
     harness_errors = []
 
     async def loop():
@@ -365,6 +369,8 @@ def supervise(pid, tier, seed):
         pid, tier, seed, counters.get("cases", 0), coverage["evaluations"], nontrivial, time.time() - t0, parser))
     for m, v in sorted(kf_seen.items()):
         print("KNOWN-FINDING: property=%s %s: %s" % (pid, m, known[(pid, m)].get("description", "")))
+    for m in stale:
+        print("NOTE: listed finding %s of %s was not observed in this run (repaired, or not reached)" % (m, pid))
     if real:
         for path, v in zip(replays, real):
             print("VIOLATION property=%s replay=%s" % (pid, path))
